@@ -57,11 +57,14 @@ def _verify_one(job):
         c = db.get(target)
         out["property"] = c.property if c else ""
         out["assumed_contracts"] = sorted(t for t, cc in db.contracts.items() if getattr(cc, "assumed", False))
+        out["db_assumptions"] = list(db.assumptions)
         old = getattr(ver, "_old", None)
+        cand_tries = 0  # candidate models for `unknown` obligations cost a solver call each: only for the first few of a target
         for ob in rep.obligations:
             d = ob.brief()
             model = ob.model
-            if ob.result == "unknown" and old is not None:
+            if ob.result == "unknown" and old is not None and cand_tries < 6:
+                cand_tries += 1
                 # candidate model from the quantifier-free part of the path condition (validated by replay only)
                 from pyvc.state import _has_quant
                 s = z3.Solver()
@@ -78,7 +81,7 @@ def _verify_one(job):
                 try:
                     inputs = cex.extract_inputs(model, fe.reg, old, old.frames[0].vars)
                     d["inputs"] = inputs
-                    d["replay"] = rtc.run_concrete(db, target, inputs)
+                    d["replay"] = _with_deadline(20, lambda: rtc.run_concrete(db, target, inputs))
                 except Exception as e:  # noqa
                     d["replay"] = {"verdict": "not-evaluable", "reason": f"{type(e).__name__}: {e}"}
                     d["replay_trace"] = traceback.format_exc()[-800:]
@@ -91,6 +94,34 @@ def _verify_one(job):
         out["crash"] = f"{type(e).__name__}: {e}\n{traceback.format_exc()[-1500:]}"
     out["seconds"] = round(time.time() - t0, 3)
     return out
+
+
+class _ReplayTimeout(BaseException):
+    pass
+
+
+def _with_deadline(seconds, fn):
+    """a replay runs REAL code on rebuilt inputs: real sockets / pollers may block for ever (seen: Listener._recv_one on a rebuilt
+    poller).  Past the deadline the replay is 'not-evaluable' - never a verdict."""
+    import signal
+
+    def late(*_):
+        raise _ReplayTimeout()
+    try:
+        prev = signal.signal(signal.SIGALRM, late)
+    except ValueError:  # not in the main thread of this process: no guard available
+        return fn()
+    t0 = time.time()
+    outer = signal.alarm(seconds)  # seconds left on an enclosing alarm (the check's watchdog), 0 if none
+    try:
+        return fn()
+    except _ReplayTimeout:
+        return {"verdict": "not-evaluable", "reason": f"replay did not finish within {seconds}s (blocking external call)"}
+    finally:
+        signal.alarm(0)
+        signal.signal(signal.SIGALRM, prev)
+        if outer:
+            signal.alarm(max(1, int(outer - (time.time() - t0))))
 
 
 def pyvc_run(targets, gen_sources=None, timeout_ms=10000, jobs=None, replay=True):
@@ -146,6 +177,9 @@ class Outcome:
                 s = f"assumed (unverified) contract: {a}"
                 if s not in self.assumptions:
                     self.assumptions.append(s)
+            for a in r.get("db_assumptions", []):
+                if a not in self.assumptions:
+                    self.assumptions.append(a)
             for u in r["undecided"]:
                 self.undecided.append(f"{r['target']}: {u}")
             for o in r["obligations"]:
